@@ -78,6 +78,59 @@ PROGRAMS = [
 ]
 
 
+# finding F7e (audit 2, B4): keyword-prefixed symbolic constants in every position of a rule, in-class
+# names and look-alikes outside the class
+KW_SYMBOLS = ["notq", "nota", "not_", "forallX", "existsY", "forallX1", "forallx", "existsa", "forall", "no", "_notq"]
+KW_RULES = [
+    "p :- {s} = 1.", "p :- {s} != X, q(X).", "p :- 1 = {s}.", "p :- {s} = 1..2.", "p(X) :- X = {s}..3.",
+    "p({s}).", "{{p({s})}} :- q({s}), {t} < 2.", "p(1..{s}).", ":- {s} < {t}.", "{s} :- q.", "p :- not {s}(1).",
+    "p(X, 1..3) :- q(X, {s}), {t} >= X.", "p :- {s} + 1 = 2.",
+]
+
+
+def cli_keyword_programs(ctx, exe):
+    """`translate --with tau-star|mu|natural` of programs with keyword-prefixed names on the REAL binary,
+    fed back to `parse --as theory --output default`.  The driver says whether a theorem of
+    Properties/C15out.v promises the feed-back for this input (decidable premise on the program:
+    no_keyword_predicate for tau-star, no_keyword_front for natural / mu):
+      promised and not fed back                      -> violation
+      natural, not promised, but fed back            -> violation (the premise is exact: C15_natural_output_F7b_iff)
+      not promised and not fed back                  -> recorded class (F7b: findings F7b, F7e)."""
+    import random
+    r = random.Random(ctx.seed * 7919 + 15)
+    progs = ["p :- notq = 1.", "p :- forallX = 1.", "p :- existsa = 1."]
+    progs += [r.choice(KW_RULES).format(s=r.choice(KW_SYMBOLS), t=r.choice(KW_SYMBOLS)) for _ in range(24)]
+    runs = known = fed = 0
+    with tempfile.TemporaryDirectory() as d:
+        lp, th = os.path.join(d, "k.lp"), os.path.join(d, "k.spec")
+        for prog in progs:
+            open(lp, "w").write(prog + "\n")
+            for tr in ("tau-star", "mu", "natural"):
+                p = subprocess.run([exe, "translate", "--with", tr, lp], stdout=subprocess.PIPE, stderr=subprocess.DEVNULL, text=True)
+                runs += 1
+                if p.returncode != 0:
+                    continue
+                open(th, "w").write(p.stdout)
+                q = subprocess.run([exe, "parse", "--as", "theory", "--output", "default", th], stdout=subprocess.PIPE, stderr=subprocess.DEVNULL, text=True)
+                runs += 1
+                fed_back = q.returncode == 0 and q.stdout == p.stdout
+                ans = vlib.run_lines(vlib.DRIVER_EXE, [f'fol_output_promised\t((translate {tr}) "{prog}\\x0a")'])[0]
+                promised = ans.startswith("(promised")
+                payload = {"kind": "custom-cli", "command": f"translate --with {tr}", "program": prog, "printed": p.stdout,
+                           "reparsed": q.stdout if q.returncode == 0 else "(refused)", "model": ans}
+                if promised and not fed_back:
+                    ctx.violation(f"CLI: `translate --with {tr}` prints a theory that is not fed back although the premise of {ans} holds", payload, True)
+                elif tr == "natural" and not promised and fed_back and ans == "(none)":
+                    ctx.violation("CLI: no_keyword_front fails but the output of `translate --with natural` is fed back (the premise is not exact)", payload, True)
+                elif fed_back:
+                    fed += 1
+                else:
+                    known += 1
+    ctx.evaluations += runs
+    ctx.distribution["cli_keyword_programs"] = {"programs": len(progs), "runs": runs, "fed_back": fed, "in_recorded_class_F7b": known}
+    log(f"CLI keyword-prefixed programs: {len(progs)} programs x 3 translations, {fed} fed back, {known} in the recorded class F7b (findings F7b / F7e)")
+
+
 def cli(ctx, cfg):
     """end to end on the binary: translate, parse the printed theory, print again: a fixed point"""
     exe = os.path.join(vlib.REPO, "target", "debug", "anthem")
@@ -116,6 +169,7 @@ def cli(ctx, cfg):
                                       {"kind": "custom-cli", "program": prog, "printed": t, "reparsed": q.stdout}, True)
     ctx.evaluations += runs
     log(f"CLI round trips: {runs} runs of the anthem binary")
+    cli_keyword_programs(ctx, exe)
 
 
 def extra(ctx, cfg, results):
